@@ -1151,6 +1151,10 @@ class Interp:
             return sym.i_cmp(o, a, b)
         if isinstance(a, str) and isinstance(b, str):
             return {'<': a < b, '<=': a <= b, '>': a > b, '>=': a >= b}[o]
+        if is_str(a) and is_str(b):
+            ca, cb = sym.s_chars(a), sym.s_chars(b)
+            if ca is not None and cb is not None and len(ca) == 1 and len(cb) == 1:
+                return sym.i_cmp(o, ca[0], cb[0])   # single characters compare by code point
         if a is None or b is None or (is_str(a) != is_str(b)):
             raise PyExc('TypeError', "'%s' not supported between instances" % o, True)
         raise Unsupported('ordering comparison on %s,%s' % (type(a).__name__, type(b).__name__))
